@@ -1143,19 +1143,28 @@ pub fn f_cancel(seed: u64) -> Plan {
         target.abandon_at = 0;
         target.abandon_after_us = rng.range(1, 8) * 1_000;
     }
+    // the abandoned delete of the subscription may race a delete of its topic, and the other way
+    // round: afterwards the subscription is gone, or it is there and can be deleted
+    let delete_race = matches!(kind, 1 | 4) && rng.chance(350);
+    if delete_race {
+        let racer = if kind == 4 { Op::DeleteTopic { topic: topic.clone() } } else { Op::DeleteSub { sub: sub.clone() } };
+        scripts.push(vec![Step::after(rng.below(3) * rng.below(300), racer)]);
+    }
     let pos = rng.below(scripts.len() as u64 + 1) as usize;
     scripts.insert(pos, vec![target]);
     plan.phases.push(Phase { scripts, advance_us: rng.below(300_000), audit: true });
     // after the drop: publish to the topic, pull both subscriptions, audit again
-    plan.phases.push(Phase {
-        scripts: vec![vec![
-            Step::new(Op::Publish { topic: topic.clone(), msgs: msgs(&mut rng, 1, false) }),
-            Step::new(Op::Pull { sub: other.clone(), max: 100, immediate: true }),
-            Step::new(Op::Pull { sub: fresh_sub.clone(), max: 100, immediate: true }),
-        ]],
-        advance_us: 0,
-        audit: true,
-    });
+    let mut after = vec![
+        Step::new(Op::Publish { topic: topic.clone(), msgs: msgs(&mut rng, 1, false) }),
+        Step::new(Op::Pull { sub: other.clone(), max: 100, immediate: true }),
+        Step::new(Op::Pull { sub: fresh_sub.clone(), max: 100, immediate: true }),
+    ];
+    if matches!(kind, 1 | 4) && (delete_race || rng.chance(300)) {
+        // the client repeats its DeleteSubscription
+        after.push(Step::new(Op::DeleteSub { sub: sub.clone() }));
+        after.push(Step::new(Op::GetSub { sub: sub.clone() }));
+    }
+    plan.phases.push(Phase { scripts: vec![after], advance_us: 0, audit: true });
     plan
 }
 
